@@ -1,5 +1,6 @@
 import Verif.Util.Proto
 import Verif.Model.Front.Pratt
+import Verif.Model.Front.ExprWf
 import Verif.Model.Front.StrLit
 /-!
 Driver for stream `pp` (C38).  Ops: `pp expr|type|prog|progx|str <payload>`; see
@@ -146,7 +147,8 @@ def judgeExpr (res : List String) : Verdict :=
          | some vd => vd
          | none => .ok ["out-of-port"])
       | some e =>
-        let tags := [ctorTag e] ++ (if isAtom e then [] else ["!nt"])
+        -- `wf` = inside the domain of the theorem `expr_roundtrip_partial`
+        let tags := [ctorTag e, if e.wf then "wf" else "non-wf"] ++ (if isAtom e then [] else ["!nt"])
         match spec with
         | some vd => vd
         | none =>
@@ -181,7 +183,7 @@ def judgeType (res : List String) : Verdict :=
       match readTy sx with
       | none => .ok ["out-of-port"]
       | some t =>
-        let tags := ["type", "!nt"]
+        let tags := ["type", if t.wf then "wf" else "non-wf", "!nt"]
         let mine := mergeQ (printTy t)
         if lexemes mine != lexemes (readToks prtS) then .modelDiff ("print:" ++ " ".intercalate (lexemes mine)) tags
         else if parseTyAll mine != some t then .modelDiff "port-roundtrip-fails" tags
